@@ -248,7 +248,7 @@ class RepositoryMachine(Machine):
             elif u < 0.52:
                 entries = []
                 for _ in range(rng.randint(1, 4)):
-                    key = self._pick_key(rng, g, fam, species, written)
+                    key = self._pick_key(rng, g, fam, species, written, entries)
                     entries.append({"key": key, "payload": g.payload(fam)})
                     written.append((fam, key))
                 op = {"op": "update", "fam": fam, "root": root, "entries": entries,
@@ -269,10 +269,21 @@ class RepositoryMachine(Machine):
                 key = self._pick_key(rng, g, fam, species, written)
                 ops.append({"op": "read", "fam": fam, "root": root, "key": key})
             elif u < 0.74:
-                how = rng.choice(["axis2d", "shape", "charge", "species", "pecclass", "metastable", "refscalar", "refscalar", "nonnumeric", "missingfield", "extrafield"])
+                hows = ["axis2d", "shape", "charge", "species", "pecclass", "metastable", "refscalar", "refscalar", "nonnumeric", "missingfield", "extrafield"]
+                # only refusal kinds that exist for the family (a wavelength is one scalar; PEC classes exist for two families; ...)
+                if fam == "wavelength":
+                    hows = ["refscalar", "refscalar", "charge", "species"]
+                else:
+                    if fam not in ("pec_excitation", "pec_recombination"):
+                        hows.remove("pecclass")
+                    if fam not in ("beam_cx", "beam_population"):
+                        hows.remove("metastable")
+                    if fam not in ("beam_cx", "beam_stopping", "beam_population", "beam_emission"):
+                        hows = [h for h in hows if h != "refscalar"]
+                how = rng.choice(hows)
                 entries = []
                 for _ in range(rng.randint(1, 3)):
-                    key = self._pick_key(rng, g, fam, species, written)
+                    key = self._pick_key(rng, g, fam, species, written, entries)
                     entries.append({"key": key, "payload": g.payload(fam)})
                 ops.append({"op": "reject", "fam": fam, "root": root, "how": how, "entries": entries,
                             "bad": rng.randrange(len(entries)), "via": rng.choice(["add", "update"])})
@@ -289,7 +300,17 @@ class RepositoryMachine(Machine):
                 ops.append({"op": "read", "fam": fam, "root": root, "key": key})
         return {"config": cfg, "ops": ops}
 
-    def _pick_key(self, rng, g, fam, species, written):
+    def _pick_key(self, rng, g, fam, species, written, entries=None):
+        if entries and rng.random() < 0.5:
+            # another key of the file the first entry of this call goes to (one read-modify-write cycle covers both)
+            k = dict(entries[0]["key"])
+            if "tr" in k:
+                k["tr"] = rng.choice(TRANSITIONS)
+            elif fam in ADF11 or fam == "thermal_cx":
+                k["ch"] = rng.randint(0, ZNUM[k["sp"]])
+            elif "m" in k:
+                k["m"] = rng.choice([1, 2, 3])
+            return k
         same = [k for f, k in written if f == fam]
         u = rng.random()
         if same and u < 0.35:
